@@ -304,7 +304,7 @@ class Walk:
             got = decode_attr(at, bytes.fromhex(e['data']))
             if got != o.attrs[at]: s.F('C05', f'C_GetAttributeValue|{at}|value-differs', 'attribute value differs from what was written', uid=o.uid, got=got, want=o.attrs[at])
     def gen_template(s, se):
-        pool = ['CKA_APPLICATION', 'CKA_ID', 'CKA_TOKEN', 'CKA_PRIVATE', 'CKA_CLASS', 'CKA_ENCRYPT', 'CKA_LABEL', 'CKA_KEY_TYPE', 'CKA_MODIFIABLE', 'CKA_VALUE_LEN', 'CKA_SUBJECT', 'CKA_OBJECT_ID']
+        pool = ['CKA_APPLICATION', 'CKA_ID', 'CKA_TOKEN', 'CKA_PRIVATE', 'CKA_CLASS', 'CKA_ENCRYPT', 'CKA_LABEL', 'CKA_KEY_TYPE', 'CKA_MODIFIABLE', 'CKA_VALUE_LEN', 'CKA_SUBJECT', 'CKA_OBJECT_ID', 'CKA_VALUE', 'CKA_VALUE', 'CKA_DECRYPT', 'CKA_SENSITIVE', 'CKA_CERTIFICATE_TYPE']
         k = s.rnd.choice([0, 0, 1, 1, 1, 2, 2, 3]); templ = []; objs = [o for o in s.m.objs.values() if o.alive]
         for _ in range(k):
             t = s.rnd.choice(pool)
